@@ -47,46 +47,54 @@ Definition result_eqb (a b : result) : bool :=
 Definition obs (code f l : N) (es : list entry) (t : N) (m : option meta) : result := mkres (err_of code) f l es t m.
 Definition ent (i t y l g : N) : entry := mkent i t y (mkpay l g).
 
-Fixpoint check_disk (v : variant) (P : params) (i : nat) (d : disk) (ops : list (sop * result)) : option nat :=
+(* one operation of a case: an ordinary operation with the observed answer, or a Save in which the harness made one
+   file-system step fail: [rep] = the Save reported an error; then the first index, last index and full-scan checksum
+   of the live store right after the failure, and [want] = the answer of the retry (or of the Save itself when no
+   error was reported) *)
+Inductive cop :=
+| Plain (o : sop) (want : result)
+| Faulty (es : list entry) (h : option hardstate) (s : option snapshot) (ft : fault) (rep : bool) (ff fl fsum : N)
+         (want : result).
+
+Fixpoint check_disk (v : variant) (P : params) (i : nat) (d : disk) (ops : list cop) : option nat :=
   match ops with
   | [] => None
-  | (o, want) :: r =>
+  | Plain o want :: r =>
       let '(d', got) := step_disk v P o d in
       if result_eqb got want then check_disk v P (S i) d' r else Some i
+  | Faulty es h s ft rep ff fl fsum want :: r =>
+      let '(rep', d1) := save_fail v P es h s ft d in
+      if rep' then
+        if negb rep then Some i else
+        let '(es1, d1') := disk_all P d1 in
+        if (disk_first d1' =? ff) && (disk_last P d1' =? fl) && (sum_of es1 =? fsum) then
+          let '(d2, got) := step_disk v P (Save es h s) d1' in
+          if result_eqb got want then check_disk v P (S i) d2 r else Some i
+        else Some i
+      else
+        if rep then Some i else
+        if result_eqb (dres P d1 Ok [] 0 None) want then check_disk v P (S i) d1 r else Some i
   end.
 
-(* the specification is told the first index the implementation reported after the operation (its compaction choice) *)
-Fixpoint check_spec (i : nat) (a : alog) (ops : list (sop * result)) : option nat :=
+(* the specification is told the first index the implementation reported after the operation (its compaction choice);
+   a failed and retried Save is one Save *)
+Fixpoint check_spec (i : nat) (a : alog) (ops : list cop) : option nat :=
   match ops with
   | [] => None
-  | (o, want) :: r =>
+  | c :: r =>
+      let '(o, want) := match c with Plain o w => (o, w) | Faulty es h s _ _ _ _ _ w => (Save es h s, w) end in
       let '(a', got) := step_spec o (r_first want) a in
       if result_eqb got want then check_spec (S i) a' r else Some i
   end.
 
-(* does the run contain a conflicting save that truncates into a rotated file at a slot > 0 ?  (finding signature) *)
-Fixpoint earlier_conflicts (v : variant) (P : params) (d : disk) (ops : list (sop * result)) : list N :=
-  match ops with
-  | [] => []
-  | (o, _) :: r =>
-      let here :=
-        match o with
-        | Save (e0 :: _) _ _ =>
-            match slot_ge P d (e_index e0) with
-            | (InOld k, Some lo) => if 0 <? lo then [file_first (nth k (d_files d) (d_cur d))] else []
-            | _ => []
-            end
-        | _ => []
-        end in
-      here ++ earlier_conflicts v P (fst (step_disk v P o d)) r
-  end.
-
 Definition code (x : option nat) : N := match x with None => 0 | Some i => N.of_nat (S i) end.
 
-(* (current-variant verdict, repaired-variant verdict, specification verdict): 0 = agrees, k+1 = first differing op k *)
-Definition run_case (P : params) (ops : list (sop * result)) : N * N * N :=
+(* verdicts (zero-fill before 6bd4b1a, zero-fill of 6bd4b1a, ZeroSlots of fe68fb6, specification):
+   0 = agrees, k+1 = first differing op k *)
+Definition run_case (P : params) (ops : list cop) : N * N * N * N :=
   (code (check_disk VCurrent P 0 (empty_disk P) ops),
    code (check_disk VRepaired P 0 (empty_disk P) ops),
+   code (check_disk VZeroSlots P 0 (empty_disk P) ops),
    code (check_spec 0 empty_alog ops)).
 
-Definition run_cases (P : params) (cs : list (list (sop * result))) : list (N * N * N) := map (run_case P) cs.
+Definition run_cases (P : params) (cs : list (list cop)) : list (N * N * N * N) := map (run_case P) cs.
